@@ -391,12 +391,15 @@ func (p *prog) stepInner(idx int, toks []string) *rec {
 		return p.newOp(dt, func() (*tensor.Dense, error) {
 			switch toks[3] {
 			case "C":
-				return tensor.New(tensor.WithShape(shape...), tensor.WithBacking(backing)), nil
+				return tensor.New(tensor.WithShape(p.hold(shape)...), tensor.WithBacking(backing)), nil
 			case "Fraw":
 				return tensor.New(tensor.WithShape(shape...), tensor.WithBacking(backing), tensor.AsFortran(nil)), nil
 			case "Fconv":
 				return tensor.New(tensor.WithShape(shape...), tensor.AsFortran(backing)), nil
 			// the same constructors with the options given in another order (the result must not depend on it)
+			case "CN":
+				// NewDense(dt, shape, WithBacking(…)): the shape is the caller's slice (held: never retained, zeroed or recycled)
+				return tensor.NewDense(dt.dt, tensor.Shape(p.hold(shape)), tensor.WithBacking(backing)), nil
 			case "C1":
 				return tensor.New(tensor.WithBacking(backing), tensor.WithShape(shape...)), nil
 			case "Fraw1":
